@@ -13,7 +13,7 @@ if git apply "$SRC/patch.diff" 2>/dev/null || git apply -3 "$SRC/patch.diff" 2>/
 if [ $ok = 1 ]; then
   SUITE=$(PYTHONPATH="$WT" /venv/bin/python -m pytest -q -p no:cacheprovider --timeout=900 2>&1 | tail -1)
   echo "suite with patch: $SUITE"
-  case "$SUITE" in *"103 passed"*) ;; *) ok=0;; esac
+  case "$SUITE" in *"103 passed"*|"104 passed"*) ;; *) ok=0;; esac
   PYTHONPATH="$WT" timeout 300 /venv/bin/python "$DEMO" >/tmp/confirm-demo-with.$$ 2>&1; RC1=$?
   echo "demo with patch rc=$RC1"; [ $RC1 != 0 ] || ok=0
   git checkout -q -- labtech
